@@ -239,6 +239,9 @@ type V2ContractSpec struct {
 	// Twin forms a contract identical to the one of the previous spec (same
 	// keys, values and terms; only the ID differs).
 	Twin bool
+	// ZeroRoot commits the all-zero hash as the Merkle root of a file of
+	// len(Data) bytes (no data hashes to it).
+	ZeroRoot bool
 }
 
 func (x *bctx) newV2Contract(budget types.Currency) types.V2FileContract {
